@@ -98,7 +98,7 @@ def run(ctx):
                 'last_affected / explicit lists) through the real override patchVulns loop with in-memory resolve client and local matcher; mo = three Maven packages (two direct, one transitive whose version depends on the '
                 'direct ones; 2-6 versions each with patch/minor/major steps), 2-4 vulnerability records of which about half affect two packages, never-fixed and windowed advisories on the transitive package, per-package levels '
                 '(major/minor/patch/none), through the same real loop, the resolver tabulated per (direct, direct) pair; every written override is judged against the version the package resolves to WITHOUT it in the final manifest; '
-                'rl = npm manifest `lib ^1.0.0`, 3-6 major versions of lib each bringing its own set of never-fixed vulnerable packages (so steps fix some and introduce several: diamonds in the '
+                'rl (every fourth case a diamond: two direct requirements that both hold the vulnerable package, none / one / both configured none — with one pinned the call must give up and RETURN) = npm manifest `lib ^1.0.0`, 3-6 major versions of lib each bringing its own set of never-fixed vulnerable packages (so steps fix some and introduce several: diamonds in the '
                 'introduced-vulnerability graph), through the real public FixVulns (relax) under a 4 s watchdog: a call that does not return is `r=hang`; '
                 'up = a pom that declares the same groupId:artifactId several times with different versions (jar / test-jar / classifier variants in <dependencies>, dependencyManagement, a profile, a pluginManagement plugin; '
                 'versions across major and minor boundaries, ranges, unknown versions; per-package and default levels; IgnoreDev) through the real public Update, judged per requirement on result.Patches and per declaration on the re-read pom. thorough adds every subset of 6 versions x level x '
@@ -193,7 +193,13 @@ def run(ctx):
             import json as _json
             c = _json.loads(bytes.fromhex(case.split(' | ')[0].split(' ')[2]))
             touched = [x for x in fi.get('touched', '-').split('+') if x not in ('-', '')]
-            if c.get('Level', 0) >= 1 and 'lib' in touched:
+            if c.get('Diamond'):
+                for bit_, name in ((1, 'd1'), (2, 'd2')):
+                    if c.get('NoneOn', 0) & bit_ and name in touched:
+                        return 'relax end to end: %s is configured none, yet its requirement was relaxed' % name
+                if c.get('NoneOn', 0) == 0 and c.get('Depth', 0) in (0, 2, 3) and fi.get('patches') == '0':
+                    return 'relax end to end: both requirements that hold the vulnerable package may be relaxed, yet no patch was offered'
+            if c.get('Level', 0) >= 1 and 'lib' in touched and not c.get('Diamond'):
                 return 'relax end to end: lib is configured %s, every newer lib is a major step, yet its requirement was relaxed' % ['major', 'minor', 'patch', 'none'][c['Level']]
             if c.get('Depth', 0) == 1 and (fi.get('vulns') != '0' or fi.get('patches') != '0' or fi.get('same') != '1'):
                 return 'relax end to end: MaxDepth 1, all vulnerable packages are two edges from the root, yet vulnerabilities / patches were reported or the manifest changed'
